@@ -15,10 +15,107 @@ var commonStub = []string{
 	"galene.go main loop: the simulator fires group.Update / token.Expire itself",
 }
 
+const schedRule = " Every run is one seed: the plan (workload, faults, sizes, knobs) is drawn from the seed's plan tape, the scheduling policy (sticky / uniform random / PCT with random depth) and every scheduling decision from its schedule tape; yield points are every mutex operation, channel operation, select, go statement, timer, simulated I/O call and designated field access of the instrumented galene sources. 'distinct' counts distinct schedule digests (a hash of the sequence of (task, yield point) pairs actually executed), 'states' counts distinct end-state signatures where the scenario defines one."
+
+const mediaRule = "media scenario: a publisher's RTP stream (VP8/VP9/H264/opus, optional simulcast layers and SVC, sequence-number and picture-id wrap, random start values) is read by the real readLoop through a simulated TrackRemote with loss, duplication and reordering on the way up; 1-3 subscribers with the real rtpWriterLoop / rtpDownTrack.Write / packetmap, receiver reports, REMB, PLI and NACKs from the subscribers (simulated RTCP feeds), layer requests and bitrate changes, NACK-driven retransmission from the real packet cache, and a tap on everything each subscriber is sent. A run is non-trivial when packets were presented to a subscriber and at least one of: packets withheld by layer selection, upstream loss, reordering, or a subscriber event happened."
+
+var mediaReal = []string{
+	"rtpconn: readLoop, rtpUpTrack, rtpWriterLoop, writerPool, rtpDownTrack.Write/write, gotNACK, sendSequence, nackWriter, sendUpRTCP, rtcpUpListener/rtcpDownListener, handleReport, adjustLayer/updateRate (instrumented copies of the working tree)",
+	"packetcache, packetmap, codecs (PacketFlags, Keyframe, RewritePacket), jitter, estimator, rtptime",
+	"pion webrtc API objects above the transport (PeerConnection, TrackLocalStaticRTP) with a no-network SettingEngine",
+}
+
+var confReal = []string{
+	"webserver websocket handler and HTTP mux (serveWS via a hijacked simulated connection, API, WHIP, public-groups, stats handlers)",
+	"rtpconn.webClient: readLoop/clientLoop/handleClientMessage/handleAction, writer queue (unbounded.Channel)",
+	"group: AddClient/DelClient, descriptions, permissions, chat history, group.Update, token package on the simulated disk",
+	"gorilla/websocket framing over the simulated connection",
+}
+
+var confStub = append([]string{
+	"network: in-memory simulated connections (delay and order decided by the scheduler; cuts injected from the plan)",
+	"group definition files and token store: simulated file system (simrt.VFS)",
+}, commonStub...)
+
 var propsMeta = map[string]PropMeta{
+	"C01": {
+		Rule: mediaRule + " Oracle for C01: a reference model assigns every forwarded packet the number 'first-presentation order minus packets withheld so far'; duplicates must repeat the number of the first copy; judged on the tap of every subscriber." + schedRule,
+		Real: mediaReal, Stub: commonStub,
+	},
+	"C02": {
+		Rule: mediaRule + " Oracle for C02: every packet a subscriber is sent is byte-identical to a packet the publisher sent except for the fields the SFU owns (sequence number, marker where documented, VP8/VP9 picture id and layer bits), its picture ids are continuous for gap-free histories, and two subscribers never observe each other's rewriting (shared-buffer aliasing)." + schedRule,
+		Real: mediaReal, Stub: commonStub,
+	},
+	"C03": {
+		Rule: mediaRule + " Oracle for C03: every NACKed sequence number is mapped back to the publisher's packet; what is retransmitted is exactly the packet that was first sent under that number (or nothing if evicted), never another packet; cache misses are forwarded upstream as NACKs only for packets really missing." + schedRule,
+		Real: mediaReal, Stub: commonStub,
+	},
+	"C04": {
+		Rule: mediaRule + " Oracle for C04: layer changes happen only at the points the property allows (spatial switches on key frames of the target layer, temporal switches on layer-sync points), the layer word is never changed between two packets of a frame, and a subscriber is never sent a packet of a layer above its selection." + schedRule,
+		Real: mediaReal, Stub: commonStub,
+	},
+	"C05": {
+		Rule: "cache scenario: 1-3 storer tasks and 0-3 reader tasks (Get, GetAt, Last, KeyframeSeqno, Resize, ResizeCond, Expect, GetStats) on one real packetcache.Cache with random capacity (incl. 1-2 entries), sequence-number wrap, duplicates, key frames split over several packets and buffers with unique tags; oracle: every byte string returned by Get/GetAt is exactly one stored packet with that sequence number, stored not longer ago than capacity allows (interval reasoning on event stamps), never a mixture (torn copy); vector-clock/lockset race detection on Cache, entry and bitmap fields. Non-trivial: more stores than capacity, or readers overlapping stores with at least one context switch." + schedRule,
+		Real: []string{"packetcache (instrumented copy of the working tree)"}, Stub: []string{"callers: simulator tasks issuing the calls readLoop/gotNACK/diskwriter make"},
+	},
+	"C06": {
+		Rule: mediaRule + " plus the bitmap-stats-direct scenario: Store/Expect/GetStats/BitmapGet sequences on the real cache against a reference count of expected, received and lost packets across wrap, resets and restarts. Oracle for C06: the loss figures reported upstream (receiver reports) and the NACKs sent upstream name exactly the packets that are missing: never a packet that was received, never one beyond the newest, every hole within the window." + schedRule,
+		Real: mediaReal, Stub: commonStub,
+	},
+	"C07": {
+		Rule: "streams scenario: 2-6 simulated clients in one or two groups publish (offer with an SDP made by a real pion PeerConnection; tracks delivered to the server's OnTrack by the simulator, possibly in stages), request / requestStream with arbitrary request maps, answer or ignore the server's offers, close, replace, abort, renegotiate, leave, are kicked, lose the right to present, have their connection cut or their ICE transport fail, in any interleaving; oracle: reference model of who must hold which downstream with which kinds, judged at quiescent points and by interval reasoning over server-side membership windows. Non-trivial: at least one stream offered to a subscriber and one teardown." + schedRule,
+		Real: append([]string{"rtpconn: pushConn/pushConnNow, pushDownConn, requestedTracks, addDownConn/delDownConn, replaceTracks, negotiate, delUpConn, handleAction"}, confReal...), Stub: confStub,
+	},
+	"C08": {
+		Rule: "password-login scenario: generated group descriptions (users maps, wildcard entry, plain / pbkdf2 / bcrypt / wildcard / empty / malformed passwords with random parameters, roles and raw permission arrays, allow-recording x unrestricted-tokens) and join attempts with right, wrong, near-miss and absent credentials through the real AddClient path, interleaved with description rewrites on the simulated disk and group.Update; oracle: an independent reference implementation of 'who gets in with which permissions' judged against the description in force during the attempt (interval reasoning). Non-trivial: an attempt overlapped a description change or came after one." + schedRule,
+		Real: []string{"group: AddClient, GetPermission, password matching (Password.Match, pbkdf2, bcrypt), description loading (instrumented copy of the working tree)", "galenectl hashing code for the 'hashed by the administration tool' clause"}, Stub: []string{"clients: simulator tasks calling group.AddClient with credentials", "group files: simulated file system"},
+	},
+	"C09": {
+		Rule: "token-scope scenario: stateful and JWT tokens with generated group scopes, validity windows (not-before / expires around the simulated clock, clock jumps), permissions and issuers; joins and WHIP requests presenting them at arbitrary simulated times, interleaved with token edits, expiry sweeps and key changes; oracle: reference model of token validity and granted permissions at the time of the attempt. Non-trivial: an attempt overlapped a change, followed a history of edits, or fell within a second of a window boundary." + schedRule,
+		Real: []string{"token package (stateful store on the simulated disk, JWT parsing/verification), group.AddClient token path, webserver token endpoints"}, Stub: []string{"clients: simulator tasks", "token file: simulated file system", "authorisation servers: none (authPortal not exercised)"},
+	},
+	"C10": {
+		Rule: "admission scenario: concurrent joins (password hashing parked at the hash semaphore), leaves, kicks, lock/unlock, autolock/autokick, max-clients changes, group deletion and re-creation, expiry windows; oracle: at every quiescent point and over server-side AddClient/DelClient probe intervals the member set respects max-clients, lock state, not-before/expires and 'a refused client is not a member'. Non-trivial: two admission operations overlapped." + schedRule,
+		Real: []string{"group: AddClient, DelClient, autoLockKick, Add/Delete/Update, description handling (instrumented copy of the working tree)"}, Stub: []string{"clients: simulator tasks implementing group.Client", "group files: simulated file system"},
+	},
+	"C11": {
+		Rule: "authorisation scenario: clients of every role (op, presenter, observer, message-only, token holders, outsiders, WHIP publishers) issue every user action, group action, token operation, chat and WHIP resource request, interleaved with permission changes, kicks and description rewrites; oracle: a reference model of 'permission held when the server handled the message' (server-side handling probes) judges every effect and every disclosure (token lists, other users' data, WHIP resources). Non-trivial: more than three messages handled." + schedRule,
+		Real: confReal, Stub: confStub,
+	},
+	"C12": {
+		Rule: "signalling-fuzz: well- and ill-typed signalling messages of every type and kind, with missing and mistyped fields, unknown ids, oversized values, in any membership state (before join, after leave, after kick), from several clients at once with bystanders; http-fuzz: method x path x header x body combinations on the API, WHIP, public-groups, stats and static surface; lifecycle-crash: the lifecycle workload (joins, kicks, WHIP sessions, recording, shutdown) judged for crashes; codec-fuzz and media-fuzz (when present): corrupted RTP/RTCP through the classifiers, the rewriter and the real forwarding pipeline. Oracle: no panic in any task, every HTTP request gets a response, bystanders keep their connection and their service. Non-trivial: more than three messages / two requests handled." + schedRule,
+		Real: append([]string{"codecs package", "webserver HTTP handlers (API, WHIP, static, stats)"}, confReal...), Stub: confStub,
+	},
 	"C13": {
-		Rule: "queue scenario: 1-5 producer tasks and one clientLoop-style consumer (plus optional stray Get callers) on the real unbounded.Channel, scheduled by a seeded sticky/random/PCT scheduler with yield points at every lock, unlock, channel operation, select and designated field access; a run is non-trivial when >=2 producers ran and at least one context switch happened inside Put/Get; distinct = distinct schedule digests. lifecycle scenario: see DESIGN.md 8/C13.",
-		Real: []string{"unbounded.Channel (instrumented copy of the working tree)", "group, rtpconn, stats, diskwriter lifecycle code in the lifecycle scenario"},
-		Stub: commonStub,
+		Rule: "queue scenario: 1-5 producer tasks and one clientLoop-style consumer (plus optional stray Get callers) on the real unbounded.Channel; FIFO per producer, no loss, no duplication, no blocked producer (porcupine linearizability for short histories). lifecycle scenario: joins, leaves, kicks, lock changes, description reloads, statistics queries, chat, WHIP sessions (creation, DELETE, ICE failure), recording start/stop and Shutdown by web, WHIP and disk clients on one group; oracles are the kernel's: wait-for-graph deadlock detection, vector-clock/lockset race detection on the designated group / client / queue state, and 'stuck' (a task that can never run again while others wait for it). Non-trivial: >=2 producers and a context switch inside Put/Get (queue); >10 context switches and >2 handled messages (lifecycle)." + schedRule,
+		Real: append([]string{"unbounded.Channel", "stats.GetGroups", "diskwriter client lifecycle", "webserver WHIP handlers"}, confReal...), Stub: confStub,
+	},
+	"C14": {
+		Rule: "membership scenario: joins, leaves, kicks, reconnects under the same id, permission and status changes by 2-6 clients in one or two groups; oracle: every client's view built from the 'user' add/change/delete events it received equals the server-side truth at every quiescent point, events for one user arrive in order, and no event of another group or from before a re-join leaks. Non-trivial: more than one view checked after at least one context switch." + schedRule,
+		Real: confReal, Stub: confStub,
+	},
+	"C15": {
+		Rule: "chat scenario: broadcast and private chat, user messages, history replay on join, clearchat, history expiry under clock advance, concurrent senders and joiners; oracle: per-group total order of chat as recorded at server-side handling, each member present for the whole handling interval receives each message exactly once in that order, joiners get the history in force, private messages reach exactly their destination. Non-trivial: more than one chat message ordered and a context switch." + schedRule,
+		Real: confReal, Stub: confStub,
+	},
+	"C16": {
+		Rule: "token-store scenario: add / edit / delete / expire / list operations by 1-3 tasks on the real stateful token store over the simulated disk with injected faults (EIO, ENOSPC, short and torn writes, failed rename, failed fsync) and crashes (process crash and power loss with only fsynced content surviving) at arbitrary disk operations, then restart and reload; oracle: reference map of acknowledged operations - after any crash every acknowledged token is present with its last acknowledged value, unacknowledged ones are old or new, the file always parses, conditional updates are exclusive. Non-trivial: a fault fired, a crash happened, or several tasks interleaved." + schedRule,
+		Real: []string{"token package stateful store: load, add, update, delete, expire, rewrite (instrumented copy of the working tree; all os.* calls redirected to the simulated disk)"}, Stub: []string{"disk: simrt.VFS (volatile vs durable content, fsync, rename atomicity, tearing at power loss, fault hooks)"},
+	},
+	"C17": {
+		Rule: "apiauth scenario: every API endpoint x method with administrator, wrong-password, other-user, group-operator, token and absent credentials, conditional headers, while the administrator's password and the configuration are rewritten concurrently; oracle: state-changing and disclosing requests succeed only for the administrator configured at handling time, responses never contain password material or token secrets, unauthorised requests change nothing on the simulated disk. Non-trivial: both authorised and unauthorised requests ran and some overlapped a configuration change." + schedRule,
+		Real: []string{"webserver API handlers (api.go), group description and configuration code, token endpoints"}, Stub: []string{"HTTP transport: httptest recorder calling the real mux", "files: simulated file system"},
+	},
+	"C18": {
+		Rule: "groupfile scenario: concurrent conditional PUT / DELETE / user and password updates (If-Match / If-None-Match with current, stale and wildcard ETags) on group definitions through the real API and group code over the simulated disk with injected faults and crashes at arbitrary disk operations; oracle: linearizable compare-and-swap per file (at most one of two conflicting conditional updates succeeds), after any crash the file holds the old or the new complete definition, never a torn or empty one, and no temporary files are taken for groups. Non-trivial: a write happened and operations overlapped, a fault fired or a crash happened." + schedRule,
+		Real: []string{"group: UpdateDescription, DeleteDescription, SetUserPassword, rewriteDescriptionFile, GetDescription/ETag; webserver API handlers"}, Stub: []string{"disk: simrt.VFS", "HTTP transport: httptest recorder calling the real mux"},
+	},
+	"C19": {
+		Rule: "paths scenario: hostile names (.., absolute paths, backslashes, NUL, percent-encoding, very long names, unicode look-alikes, trailing dots and slashes) as group names, user names, recording file names and static paths through the join path, the API, the recordings handler and the recorder; oracle: every file-system operation observed (simulated disk op log and a watch on the real temporary directories) stays below the configured directory of its kind. Non-trivial: hostile names were used and files were touched." + schedRule,
+		Real: []string{"group name parsing and file lookup, webserver path handling (API, recordings, static), diskwriter file naming"}, Stub: []string{"disk: simrt.VFS for group and token files, a per-run temporary directory for recordings and static files"},
+	},
+	"C20": {
+		Rule: "record scenario: an audio and/or VP8/VP9/H264 stream with frames of arbitrary sizes (1 byte to hundreds of packets), random start sequence numbers and timestamps (incl. 16- and 32-bit wrap) reaches the real recorder through the real up track, packet cache and writer loop with reordering, duplicates, gaps the cache can or cannot fill, sender reports at arbitrary points, late join (replay from the cached key frame), resolution changes, and stops (unrecord, publisher leaving, PushConn(nil), abrupt) at arbitrary points; oracle: every file parsed back with an independent EBML reader and compared with the frames sent: identity, no duplicates, order, monotonic timestamps, completeness after the first key frame when every packet arrived or was recoverable, declared tracks, shared time origin, closure. Non-trivial: blocks were written and faults, cache recovery, several recordings or sender reports were involved." + schedRule,
+		Real: []string{"diskwriter (Client, diskConn, diskTrack, Write, fetch, writeBuffered, origin computation, initWriter, close)", "rtpconn up track / readLoop / rtpWriterLoop / sendSequence, packetcache", "jech/samplebuilder, at-wat/ebml-go webm writer, pion rtp depacketisers (the pinned dependencies, uninstrumented)"}, Stub: []string{"disk for recordings: a real per-run temporary directory (no fault injection on it)", "publisher: generated RTP streams with synthetic codec payloads (valid headers, random bodies)"},
 	},
 }
